@@ -72,6 +72,11 @@ def cases(seed, tier):
                 if rng.random() < 0.5:
                     items.append({'kind': 'dict', 'tok': T.fresh_tok()})
                 rng.shuffle(items)
+                if rng.random() < 0.15:
+                    # the same unrooted node named twice: refused, and the node must come back unrooted
+                    us = [it for it in items if it['kind'] == 'top' and it['top'] in (2, 3)]
+                    if us:
+                        items.insert(rng.randrange(len(items) + 1), dict(rng.choice(us)))
                 if items:
                     inp = {'kind': rng.choice(['list', 'tuple']), 'items': items}
                     steps.append({'op': 'save', 'file': fresh(), 'input': inp, 'mode': mode, 'tree': True, 'twin': True})
